@@ -101,6 +101,11 @@ func TestC18(t *testing.T) {
 				if _, isGRPC := cli.(*vp.GRPCCli); isGRPC {
 					_, serr = cli.Do("grpc-accept-raw", "id", id)
 				}
+			case "p-accept-storm": // plugin code keeps announcing brokered servers in the background, across the shutdown
+				if _, isGRPC := cli.(*vp.GRPCCli); isGRPC {
+					_, serr = cli.Do("grpc-accept-storm")
+					time.Sleep(100 * time.Millisecond)
+				}
 			case "p2h": // host accepts, plugin dials
 				switch x := cli.(type) {
 				case *vp.RPCCli:
